@@ -98,6 +98,16 @@ def run(ctx):
         rq.update({"part": "transcript", "histories": hf, "instance": inst, "k": k, "variants": ["real", "random", "real+pow0", "random+pow0", "random+pow1", "random+pow20"],
                    "nperturb": 60 if thorough else 12, "shard": len(jobs)})
         jobs.append(("c11", rq, "t-" + inst))
+        # the same with a final polynomial of 1..3 coefficients: the sponge's input block is then partly filled when the proof-of-work
+        # witness is observed (every shipped proof has 16 coefficients = four full blocks)
+        for fl in ([1, 2, 3, 5] if thorough else [1 + (ctx.seed + len(jobs)) % 3]):
+            sh2 = dict(sh)
+            sh2["FinalLen"] = fl
+            tr2 = tlc_with_cfg(ctx, "Transcript", transcript_cfg(sh2), "Transcript_%s_f%d" % (inst, fl))
+            rq2 = dict(files)
+            rq2.update({"part": "transcript", "histories": os.path.join(tr2["dir"], "challenger_histories.json"), "instance": inst, "k": k, "final_len": fl,
+                        "variants": ["real", "random"], "nperturb": 8 if thorough else 3, "shard": len(jobs)})
+            jobs.append(("c11", rq2, "t-%s-f%d" % (inst, fl)))
 
     def one(j):
         return ctx.run_driver(j[0], j[1], tag=j[2], timeout=3000)
